@@ -108,6 +108,8 @@ def rename(body, old, new):
 
 
 def _uses(body, name):
+    # a struct-literal field label (`Self { name: value }`, after `{` or `,`) is not a use of a local called `name`
+    body = re.sub(r'(?<=[{,])(\s*)%s(\s*:(?!:))' % re.escape(name), r'\1__label__\2', body)
     return re.search(r'(?<![\w\'])(?<!(?<!\.)\.)%s\b(?!\s*::)' % re.escape(name), body) is not None
 
 
